@@ -5,7 +5,7 @@ from vlib import line, untok
 TRUSTED_BASE = [
     "Coq 8.16.1 kernel (coqc; coqchk in the thorough tier)",
     "Print Assumptions of every theorem in coq/Properties/C05.v: closed under the global context",
-    "hand-written model coq/Model/TlsDemux.v of tls_demultiplexer.rs (TlsDemux::new, select) + the TCP filter and reload in core.rs",
+    "hand-written model coq/Model/TlsDemux.v of tls_demultiplexer.rs (TlsDemux::new, select) + the TCP filter and reload in core.rs + the QUIC listener's use of the selection (select_quic)",
     "independent routing/protocol reading coq/Spec/SniRouting.v",
     "translator tools/gen_tables.py: structural facts of core.rs (no-SNI refusal, HTTP/3-on-TCP refusal, reload replaces only on success under the write lock)",
     "extraction + driver.ml, cross-checked against vm_compute; harness doors verif::demux (real TlsDemux built from settings + certificate files, real Core::reload_tls_hosts_settings)",
@@ -13,7 +13,7 @@ TRUSTED_BASE = [
 ASSUMPTIONS = [
     "RwLock gives mutual exclusion between reload and select (reload histories are linearised)",
     "certificate loading is environment: every host uses a copy of the test certificate, identity = file name",
-    "QUIC calls select twice (certificate callback and finalisation) and is not driven",
+    "QUIC calls select twice (certificate callback and finalisation); the QUIC listener is driven with real handshakes and the channel is told from the answer to a plain GET (the tunnel and reverse-proxy channels answer alike); an SNI designating no entry is served from the bootstrap context there, which the property only forbids on TCP",
     "alternative SNIs shared by two main hosts have an unspecified owner (HashMap order) and are not generated",
 ]
 RULE = ("host-name assignments over the labels {a,b,c,m} incl. dot-suffix overlaps (a.m, b.a.m) and alternative SNIs, all 8 subsets of "
@@ -110,6 +110,22 @@ def gen_cases(rng, ctx):
             toks += [names(alpn), list(sni.encode())]
         cases.append(Case(line("c05_front", toks), line("c05_select", toks), kind="listener:handshakes", nontrivial=True,
                           meta={"flags": flags, "main": main, "alts": alts, "rp": rp, "ping": ping, "speed": speed, "queries": queries, "front": True}))
+    # the demultiplexer behind the real QUIC listener: one QUIC + HTTP/3 handshake per query, then an unauthenticated GET whose
+    # answer tells the channels apart (ping 200, speedtest 400, tunnel / reverse proxy 502 or no answer)
+    for _ in range(12 if thorough else 4):
+        flags, main, alts, rp, ping, speed = gen_config(rng)
+        while len(set(main + rp + ping + speed + [a for _, a in alts])) != len(main + rp + ping + speed + [a for _, a in alts]):
+            flags, main, alts, rp, ping, speed = gen_config(rng)
+        flags = [flags[0], flags[1], 1, flags[3]]
+        toks = [flags, names(main), alts_tok(alts), names(rp), names(ping), names(speed)]
+        cands = [x for x in main + rp + ping + speed + ping + speed + [a for _, a in alts] + ["c." + main[0], "nope"] + LABELS[:10]]
+        queries = []
+        for _ in range(8):
+            sni = rng.choice(cands)
+            queries.append(([list(b"h3")], sni))
+            toks += [names([b"h3"]), list(sni.encode())]
+        cases.append(Case(line("c05_front_quic", toks), line("c05_select_quic", toks), kind="listener:quic-handshakes", nontrivial=True,
+                          meta={"flags": flags, "main": main, "alts": alts, "rp": rp, "ping": ping, "speed": speed, "queries": queries, "quic": True}))
     # reload histories
     for _ in range(60 if thorough else 15):
         flags, main, alts, rp, ping, speed = gen_config(rng)
@@ -183,6 +199,36 @@ def judge(case, impl, model, spec, ctx):
     if impl == "999":
         return [("violation", "the TLS demultiplexer panicked")]
     out = []
+    if case.meta and case.meta.get("quic"):
+        if impl == "996":
+            ctx.setdefault("skipped_env", []).append(case.kind)
+            return []
+        if impl == "2":
+            return [("disagree", "host settings refused")] if model != "2" else []
+        exp = oracle(case.meta)
+        got = [untok(t) for t in impl.split()]
+        mans = [untok(t) for t in model.split()] if model and model != "2" else []
+        answers = {0: (502, 407), 1: (200,), 2: (400, 404), 3: (0, 502)}
+        names_ = {0: "tunnel", 1: "ping", 2: "speedtest", 3: "reverse proxy"}
+        for n, ((alpn, sni), e, g) in enumerate(zip(case.meta["queries"], exp, got)):
+            if g == [9]:
+                continue
+            what = "real QUIC listener, SNI %r" % sni
+            if e is not None:
+                ch = e[0][0]
+                if g[0] == 0:
+                    out.append(("violation", "%s: no connection although the SNI designates a %s host and HTTP/3 is enabled" % (what, names_[ch])))
+                elif g[1] not in answers[ch]:
+                    out.append(("violation", "%s designates a %s host but the answer to a plain GET is %d, which is not that channel's" % (what, names_[ch], g[1])))
+            # an SNI that designates no entry is served from the bootstrap (first main host) context on QUIC; the property only
+            # demands a refusal on TCP, so this is compared with the model's reading rather than judged
+            if not out and g[0] == 1 and n < len(mans):
+                mch = mans[n][1]
+                if g[1] not in answers[mch]:
+                    out.append(("disagree", "%s: answer %d, the model routes it to the %s channel" % (what, g[1], names_[mch])))
+            if out:
+                break
+        return out
     if case.meta and case.meta.get("front"):
         if impl == "996":
             ctx.setdefault("skipped_env", []).append(case.kind)
